@@ -65,6 +65,20 @@ def run_oracle(run: Run, ctx, known: findings.Known, modname: str, name: str, cl
         run.sample({"oracle": name, "case": s}, limit=12)
 
 
+class Informational:
+    """Wrapper around findings.Known for oracles some of whose defect classes are function-level hazards that were never shown to break
+    the property end to end (mapped to an id starting with "-"): those are counted in the evidence, never reported as a violation and
+    never as a KNOWN-FINDING; every other class goes to the wrapped Known as usual."""
+    def __init__(self, known):
+        self.known = known
+
+    def listed(self, fid):
+        return fid.startswith("-") or self.known.listed(fid)
+
+    def hit(self, fid, case, what=""):
+        return True if fid.startswith("-") else self.known.hit(fid, case, what)
+
+
 def replay_generic(rec) -> bool:
     case = rec.get("case") or {}
     mod = importlib.import_module(case["module"])
